@@ -5,6 +5,7 @@ import Poulpy.Lemmas.Ntt120Top
 import Poulpy.Lemmas.NttSum
 import Poulpy.Lemmas.Fft64Instance
 import Poulpy.Lemmas.Fft64Vmp
+import Poulpy.Lemmas.F64Mono
 
 /-!
 # C07 — DFT-domain products equal exact negacyclic (bivariate) convolution
@@ -662,7 +663,7 @@ end C07
 (`fft_ref`, `ifft_ref`, `reim_from/to_znx_i64`, `reim_mul/addmul`, the svp / vmp / idft path).  Both are tied bit for
 bit to `poulpy_cpu_ref` by the `fft64` gate.  The theorems below are about exactly those definitions:
 
-* (a) the rounding function is round-to-nearest (half an ulp, exact on representable values), `add/sub/mul` are the
+* (a) the rounding function is round-to-nearest (half an ulp, exact on representable values, monotone), `add/sub/mul` are the
   correctly rounded exact results, `fl(x∘y) = (x∘y)(1+δ)` with `|δ| ≤ 2^-53`;
 * (b) a-priori error bounds of the forward and inverse networks **for every `n = 2^k`** by induction over the levels,
   under the hypothesis that the table is within `τ` of the true roots of unity (`Fft64.TableAccurate`: *checked*
@@ -675,11 +676,11 @@ bit to `poulpy_cpu_ref` by the `fft64` gate.  The theorems below are about exact
 PARTIAL with respect to the slice brief: the a-priori domain is a worst-case (sup-norm) bound, `n²·(9/16)·|a|·|b|·(20k+6)·2^-53 < 1/2`,
 i.e. `n·|a|·|b| ≤ 2^35` at `n = 1024` and `2^28` at `n = 65536`, where the measured boundary on the tried worst-case inputs is
 `2^49`; the vmp domain (`VmpDomain`) is explicit but has no closed-form table; the AVX2/FMA variants and the convolution path
-have no theorem (tied only); monotonicity of `round` is not proved.
+have no theorem (tied only).
 -/
 
 namespace C07
-open F64 Fft64 Complex
+open F64 Fft64 Complex Hal
 
 /-! ### (a) the binary64 model -/
 
@@ -704,6 +705,11 @@ theorem f64_round_exact_on_representable (d : Dy) (hm : d.m < 2 ^ 53) (he : -107
   · apply (val_round d hx).2.2.1 h0
     have : Nat.log2 d.m < 53 := (Nat.log2_lt h0).2 hm
     unfold quantum; push_cast; omega
+
+/-- `round` is monotone: `x ≤ y → round x ≤ round y` (ties go to even on both sides of a shared midpoint, binade
+boundaries are fixed points) -/
+theorem f64_round_monotone (x y : Dy) (hx : |x.val| < (2:ℝ) ^ (1023:Int)) (hy : |y.val| < (2:ℝ) ^ (1023:Int))
+    (h : x.val ≤ y.val) : val (round x) ≤ val (round y) := round_mono x y hx hy h
 
 /-- every finite pattern is a fixed point of decode → value: its value is representable -/
 theorem f64_decode_representable {b : Nat} {d : Dy} (h : decode b = some d) : d.m < 2 ^ 53 ∧ -1074 ≤ d.e ∧ d.e ≤ 971 :=
@@ -747,6 +753,15 @@ example : mul 0x3FF0000000000001 0x3FF0000000000001 = 0x3FF0000000000002 := by d
 example : ofInt 9007199254740993 = 0x4340000000000000 ∧ ofInt (-3) = 0xC008000000000000 := by decide +kernel
 example : toI64 2 0x4024000000000000 = 3 ∧ toI64 2 0xC024000000000000 = -3 ∧ toI64 0 0x43E0000000000000 = 2 ^ 63 - 1 := by
   decide +kernel
+/-- monotonicity on a concrete pair: `2^53 + 1 ≤ 2^53 + 3` round to `2^53` resp. `2^53 + 4` -/
+example : val (round ⟨false, 2 ^ 53 + 1, 0⟩) ≤ val (round ⟨false, 2 ^ 53 + 3, 0⟩) := by
+  have b : (2:ℝ) ^ (54:Nat) < (2:ℝ) ^ (1023:Int) := by
+    rw [← zpow_natCast]; exact zpow_lt_zpow_right₀ (by norm_num) (by norm_num)
+  apply f64_round_monotone
+  · rw [Dy.val_abs]; refine lt_trans ?_ b; norm_num
+  · rw [Dy.val_abs]; refine lt_trans ?_ b; norm_num
+  · unfold Dy.val; norm_num
+example : F64.round ⟨false, 2 ^ 53 + 1, 0⟩ = 0x4340000000000000 ∧ F64.round ⟨false, 2 ^ 53 + 3, 0⟩ = 0x4340000000000002 := by decide +kernel
 example : Fin64 0x3FF0000000000000 ∧ val 0x3FF0000000000000 = 1 := by
   have h : decode 0x3FF0000000000000 = some ⟨false, 2 ^ 52, -52⟩ := by decide +kernel
   refine ⟨⟨_, h⟩, ?_⟩
@@ -883,9 +898,56 @@ theorem fft64_vmp_acc_growth (ep ap : ℝ) (hep : 0 ≤ ep) (hap : 0 ≤ ap) (R 
 /-- the vmp domain is decidable by evaluation and inhabited: `n = 8`, 3 rows, operands below `2^12` -/
 theorem fft64_vmp_domain_example : VmpDomain 2 3 τ51 4096 4096 := vmpDomain_example
 
+/-- **end to end, scalar-vector product**: what the FFT64 reference back end computes for limb `l` of `svp_apply_dft`
+is exactly what the HAL specification model says (`Hal.svpApplyCol`: `negMul p limb`) — the exact-integer model the
+`hal` tie compares all four back ends with -/
+theorem fft64_svp_matches_spec (K : Nat) (omg iomg : Array Nat) (τ Ma Mb : ℝ) (hacc : TableAccurate τ K omg iomg)
+    (rs : Nat) (p : Poly) (b : Col) (l : Nat) (hl : l < rs) (hlb : l < b.length) (d : Poly)
+    (hp : p.length = 2 ^ (K + 1)) (hb : (limbOr0 (2 ^ (K + 1)) b l).length = 2 ^ (K + 1))
+    (hpM : ∀ c ∈ p, c.natAbs < 2 ^ 53 ∧ |(c:ℝ)| ≤ Ma) (hxM : ∀ c ∈ limbOr0 (2 ^ (K + 1)) b l, c.natAbs < 2 ^ 53 ∧ |(c:ℝ)| ≤ Mb)
+    (hdom : SvpDomain K τ Ma Mb) :
+    Fft64.svpPipeline K omg iomg p (limbOr0 (2 ^ (K + 1)) b l) = (svpApplyCol (2 ^ (K + 1)) rs p b).getD l d := by
+  rw [svp_limbwise (2 ^ (K + 1)) rs p b l hl d, if_pos hlb]
+  exact fft64_pipeline_exact K omg iomg τ Ma Mb p _ hacc hp hb hpM hxM hdom
+
+/-- **end to end, vector-matrix product**: one flat output entry of `Hal.vmpFlat` (`limb_offset = 0`) is exactly what
+the FFT64 vmp pipeline computes from the rows `(input limb, matrix entry)` -/
+theorem fft64_vmp_matches_spec (K : Nat) (hK : 2 ≤ K) (omg iomg : Array Nat) (τ Ma Mb : ℝ) (hacc : TableAccurate τ K omg iomg)
+    (a : List Poly) (m : PMat) (rl r : Nat) (hr : r < rl) (hc : r < m.colsOut * m.size) (d : Poly)
+    (hlen : ∀ i, i < min (m.colsIn * m.rows) a.length →
+      (a.getD i (zeroP (2 ^ (K + 1)))).length = 2 ^ (K + 1) ∧ (m.entry i r).length = 2 ^ (K + 1))
+    (hM : ∀ i, i < min (m.colsIn * m.rows) a.length →
+      (∀ c ∈ a.getD i (zeroP (2 ^ (K + 1))), c.natAbs < 2 ^ 53 ∧ |(c:ℝ)| ≤ Ma) ∧ (∀ c ∈ m.entry i r, c.natAbs < 2 ^ 53 ∧ |(c:ℝ)| ≤ Mb))
+    (hdom : VmpDomain K (min (m.colsIn * m.rows) a.length) τ Ma Mb) :
+    vmpApply K omg iomg ((List.range (min (m.colsIn * m.rows) a.length)).map (fun i => (a.getD i (zeroP (2 ^ (K + 1))), m.entry i r))) =
+      .ok ((vmpFlat (2 ^ (K + 1)) a m 0 rl).getD r d) := by
+  have e : (vmpFlat (2 ^ (K + 1)) a m 0 rl).getD r d =
+      sumPolys (2 ^ (K + 1)) (((List.range (min (m.colsIn * m.rows) a.length)).map (fun i => (a.getD i (zeroP (2 ^ (K + 1))), m.entry i r))).map
+        (fun r => negMul r.1 r.2)) := by
+    rw [vmp_entry (2 ^ (K + 1)) a m 0 rl r hr d]
+    have h1 : 0 * m.colsOut < min (m.colsOut * m.size) (rl + 0 * m.colsOut) ∧
+        r < min (m.colsOut * m.size) (rl + 0 * m.colsOut) - 0 * m.colsOut := by
+      simp only [Nat.zero_mul, Nat.add_zero, Nat.sub_zero]; omega
+    rw [if_pos h1, List.map_map]
+    congr 1
+    apply List.map_congr_left
+    intro i _
+    simp only [Function.comp, Nat.zero_mul, Nat.add_zero]
+  rw [e]
+  apply fft64_vmp_exact K hK omg iomg τ Ma Mb _ hacc
+  · intro r' hr'
+    simp only [List.mem_map, List.mem_range] at hr'
+    obtain ⟨i, hi, rfl⟩ := hr'
+    exact hlen i hi
+  · intro r' hr'
+    simp only [List.mem_map, List.mem_range] at hr'
+    obtain ⟨i, hi, rfl⟩ := hr'
+    exact hM i hi
+  · simpa using hdom
+
 /- FULL STATEMENT (not proved): closed form / numeric table of `VmpDomain` for every `rows` and `n ≤ 2^16` in the style of
    `fft64_domain_numeric` (the predicate itself is explicit and evaluated per instance, e.g. `fft64_vmp_domain_example`);
-   monotonicity of `round` (`x ≤ y → round x ≤ round y`); the ℓ2 (Parseval) refinement of the a-priori bound, which would
+   the ℓ2 (Parseval) refinement of the a-priori bound, which would
    replace one factor `n` by `√n`; the convolution (`cnv_*`) path; the AVX2/FMA kernels of FFT64Avx. -/
 
 /-! non-vacuity: `n = 4` with the crate's real tables — no hypothesis left unchecked; and the model evaluated by the kernel -/
